@@ -290,32 +290,20 @@ end prior
 theorem rwp_move_construct_keeps_config (src : RwpObj ℝ) :
     src.moveConstruct.1 = src := rfl
 
-/-- FULL-STRENGTH STATEMENT (does **not** hold for the code as it is): a move-assigned object has the
-    configuration of the source, `∀ tgt src, tgt.moveAssign src = src`.  What holds: generator and model are
-    those of the source; the ratio is the source's only if the target already had it
-    (`rwp_move_assign_counterexample` shows the excluded case is real). -/
-theorem rwp_move_assign_partial (tgt src : RwpObj ℝ) :
-    (tgt.moveAssign src).rng = src.rng ∧ (tgt.moveAssign src).hasInit = src.hasInit ∧
-    (tgt.moveAssign src = src ↔ tgt.ratio = src.ratio) := by
-  refine ⟨rfl, rfl, ?_⟩
-  constructor
-  · intro h; have := congrArg RwpObj.ratio h; exact this
-  · intro h; cases src; simp_all [RwpObj.moveAssign]
+/-- a move-assigned `ResamplingWithPrior` has the ratio, generator and model of the source, whatever
+    the target was configured with (fix f722f03; before it `prior_ratio_` was not assigned and the
+    target kept its own ratio — re-introducing that is reported under key `rwp-move-assign-config`) -/
+theorem rwp_move_assign_keeps_config (tgt src : RwpObj ℝ) :
+    (tgt.moveAssign src).1 = src := rfl
 
-/-- Negation of the full-strength statement on a concrete witness: a source configured with ratio
-    `0.3` assigned onto an object configured with `0.5` yields an object with ratio `0.5`; on `N = 2`
-    particles it replaces `⌊0.5·2⌋ = 1` particle instead of `⌊0.3·2⌋ = 0`. -/
-theorem rwp_move_assign_counterexample :
-    ¬ (∀ tgt src : RwpObj ℝ, tgt.moveAssign src = src) ∧
-    ((⟨0.5, [], true⟩ : RwpObj ℝ).moveAssign ⟨0.3, [], true⟩).ratio = 0.5 ∧
-    ⌊(2 : ℝ) * 0.5⌋₊ = 1 ∧ ⌊(2 : ℝ) * 0.3⌋₊ = 0 := by
-  refine ⟨?_, rfl, ?_, ?_⟩
-  · intro h
-    have := congrArg RwpObj.ratio (h ⟨0.5, [], true⟩ ⟨0.3, [], true⟩)
-    simp only [RwpObj.moveAssign] at this
-    norm_num at this
-  · rw [Nat.floor_eq_iff (by norm_num)]; norm_num
+/-- the hypothesis-free statement is not vacuous and matters: for the witness that exposed the defect
+    (source ratio `0.3` assigned onto an object configured with `0.5`, `N = 2`) the assigned object
+    replaces `⌊0.3·2⌋ = 0` particles, where the target's own ratio would have given `⌊0.5·2⌋ = 1` -/
+example : ((⟨0.5, [], true⟩ : RwpObj ℝ).moveAssign ⟨0.3, [], true⟩).1.ratio = 0.3 ∧
+    ⌊(2 : ℝ) * 0.3⌋₊ = 0 ∧ ⌊(2 : ℝ) * 0.5⌋₊ = 1 := by
+  refine ⟨rfl, ?_, ?_⟩
   · rw [Nat.floor_eq_zero]; norm_num
+  · rw [Nat.floor_eq_iff (by norm_num)]; norm_num
 
 /-! ### Non-vacuity and literal applicability to the executed `ℚ` instance -/
 
